@@ -169,7 +169,7 @@ def in_place_loading(ctx, rep, rule: str) -> None:
             if isinstance(comp.iter, ast.Call) and isinstance(comp.iter.func, ast.Name) and comp.iter.func.id == "enumerate" and _norm(comp.iter.args[0]) == old and isinstance(comp.target, ast.Tuple):
                 idx = comp.target.elts[0].id
                 rec = [c for c in ast.walk(g.elt) if isinstance(c, ast.Call) and isinstance(c.func, ast.Name) and c.func.id == load.name]
-                r_seq = bool(rec) and all(_norm(A.keyword(c, "new_state")) == f"{new}[{idx}]" for c in rec)
+                r_seq = bool(rec) and all(_norm(A.arg_of(c, load, new)) == f"{new}[{idx}]" for c in rec)
         rebuilt = any(isinstance(n, ast.Assign) and _norm(n.value).startswith(f"type({old})(") for s in s_arm.body for n in ast.walk(s))
         r_seq = r_seq and rebuilt
     if d_arm is not None:
@@ -179,7 +179,7 @@ def in_place_loading(ctx, rep, rule: str) -> None:
             if _norm(comp.iter) == f"{old}.items()" and isinstance(comp.target, ast.Tuple):
                 key = comp.target.elts[0].id
                 rec = [c for c in ast.walk(dc.value) if isinstance(c, ast.Call) and isinstance(c.func, ast.Name) and c.func.id == load.name]
-                r_dict = bool(rec) and all(_norm(A.keyword(c, "new_state")) == f"{new}[{key}]" for c in rec) and _norm(dc.key) == key
+                r_dict = bool(rec) and all(_norm(A.arg_of(c, load, new)) == f"{new}[{key}]" for c in rec) and _norm(dc.key) == key
     rep.ob(rule, "containers-looked-up-by-writer-keys", w_seq and w_dict and r_seq and r_dict, load.loc(), f"writer keys sequence entries by position (enumerate): {w_seq}, dict entries by key: {w_dict}; reader looks up `{new}[i]` for i in enumerate({old}) and rebuilds with type({old})(...): {r_seq}; reader looks up `{new}[key]` per dict key: {r_dict} — positional consumption of the loaded values would depend on their insertion order", sample=True)
 
 
